@@ -34,6 +34,15 @@ Scenario(ixs, szs, ds) ==
               \o [i \in 1..n |-> FileEq(paths[i], ms[i].data)]
          ELSE << VolCreate(OutName, paths, "ok"), FileEq(OutName, Layout(s)), VolOpen(OutName, listing) >>
               \o perMember \o << VolMemberErr(Len(s)), VolMemberErr(Len(s) + 1), VolIndex(<<113>>, NoIndex), VolExtractAll(<<122>>) >>)
+\* the output path names one of the inputs (same spelling up to letter case and a leading "./"): refused, nothing modified
+OutVariants == << OutName, <<46,47>> \o OutName, ToUpper(OutName), <<46,47,79,46,118,111,108>> >>       \* "o.vol" "./o.vol" "O.VOL" "./O.vol"
+SelfScenario(v, extra) ==
+  LET other == Member(extra, 3, 1)
+      self == OutVariants[v]
+  IN << Put(Pool[extra], other.data), Put(OutName, << Lit(<<1, 2, 3>>) >>) >>
+     \o (IF self # OutName /\ self # <<46,47>> \o OutName THEN << Put(self, << Lit(<<4, 5>>) >>) >> ELSE <<>>)
+     \o << VolCreateRel(OutName, << Pool[extra], self >>, "refuse"), FileEq(OutName, << Lit(<<1, 2, 3>>) >>), FileEq(Pool[extra], other.data),
+           VolCreateRel(OutName, << self, Pool[extra] >>, "refuse"), FileEq(OutName, << Lit(<<1, 2, 3>>) >>) >>
 Distinct(ixs) == \A i, j \in DOMAIN ixs : i # j => ixs[i] # ixs[j]
 Init == done = FALSE
 Next == /\ ~done /\ done' = TRUE
@@ -46,5 +55,6 @@ Next == /\ ~done /\ done' = TRUE
                      ms == SortCI([i \in 1..n |-> Member(ixs[i], szs[i], i)])
                  IN /\ (~HasDup(ms) => Assert(WellFormed(ms), <<"layout not well-formed", ms>>))
                     /\ (sc # <<>> => PrintT("S|" \o ToJson([id |-> <<ixs, szs>>, steps |-> sc])))
+        /\ (~Big => \A v \in 1..Len(OutVariants) : \A extra \in {1, 3} : PrintT("S|" \o ToJson([id |-> <<"self", v, extra>>, steps |-> SelfScenario(v, extra)])))
 Spec == Init /\ [][Next]_done
 ====
